@@ -69,7 +69,8 @@ Record state := mkState {
   blocked : addr -> bool;
   cap : option Z;
   migrating : bool;
-  mdata : option Z                  (* what _migrate stored *)
+  mdata : option Z;                 (* what _migrate stored *)
+  mgr : addr -> bool                (* allow/block-list examples: holders of the "manager" role *)
 }.
 
 Definition updZ (f : addr -> Z) (a : addr) (v : Z) : addr -> Z := fun x => if N.eqb x a then v else f x.
@@ -77,16 +78,17 @@ Definition updB (f : addr -> bool) (a : addr) (v : bool) : addr -> bool := fun x
 Definition upd2 (f : addr -> addr -> Z * Z) (a b : addr) (v : Z * Z) : addr -> addr -> Z * Z :=
   fun x y => if N.eqb x a && N.eqb y b then v else f x y.
 
-Definition set_now s v := mkState v (supply s) (bal s) (alw s) (paused s) (allowed s) (blocked s) (cap s) (migrating s) (mdata s).
-Definition set_supply s v := mkState (now s) v (bal s) (alw s) (paused s) (allowed s) (blocked s) (cap s) (migrating s) (mdata s).
-Definition set_bal s a v := mkState (now s) (supply s) (updZ (bal s) a v) (alw s) (paused s) (allowed s) (blocked s) (cap s) (migrating s) (mdata s).
-Definition set_alw s o sp v := mkState (now s) (supply s) (bal s) (upd2 (alw s) o sp v) (paused s) (allowed s) (blocked s) (cap s) (migrating s) (mdata s).
-Definition set_paused s v := mkState (now s) (supply s) (bal s) (alw s) v (allowed s) (blocked s) (cap s) (migrating s) (mdata s).
-Definition set_allowed s a v := mkState (now s) (supply s) (bal s) (alw s) (paused s) (updB (allowed s) a v) (blocked s) (cap s) (migrating s) (mdata s).
-Definition set_blocked s a v := mkState (now s) (supply s) (bal s) (alw s) (paused s) (allowed s) (updB (blocked s) a v) (cap s) (migrating s) (mdata s).
-Definition set_capv s v := mkState (now s) (supply s) (bal s) (alw s) (paused s) (allowed s) (blocked s) v (migrating s) (mdata s).
-Definition set_mig s v := mkState (now s) (supply s) (bal s) (alw s) (paused s) (allowed s) (blocked s) (cap s) v (mdata s).
-Definition set_mdata s v := mkState (now s) (supply s) (bal s) (alw s) (paused s) (allowed s) (blocked s) (cap s) (migrating s) v.
+Definition set_now s v := mkState v (supply s) (bal s) (alw s) (paused s) (allowed s) (blocked s) (cap s) (migrating s) (mdata s) (mgr s).
+Definition set_supply s v := mkState (now s) v (bal s) (alw s) (paused s) (allowed s) (blocked s) (cap s) (migrating s) (mdata s) (mgr s).
+Definition set_bal s a v := mkState (now s) (supply s) (updZ (bal s) a v) (alw s) (paused s) (allowed s) (blocked s) (cap s) (migrating s) (mdata s) (mgr s).
+Definition set_alw s o sp v := mkState (now s) (supply s) (bal s) (upd2 (alw s) o sp v) (paused s) (allowed s) (blocked s) (cap s) (migrating s) (mdata s) (mgr s).
+Definition set_paused s v := mkState (now s) (supply s) (bal s) (alw s) v (allowed s) (blocked s) (cap s) (migrating s) (mdata s) (mgr s).
+Definition set_allowed s a v := mkState (now s) (supply s) (bal s) (alw s) (paused s) (updB (allowed s) a v) (blocked s) (cap s) (migrating s) (mdata s) (mgr s).
+Definition set_blocked s a v := mkState (now s) (supply s) (bal s) (alw s) (paused s) (allowed s) (updB (blocked s) a v) (cap s) (migrating s) (mdata s) (mgr s).
+Definition set_capv s v := mkState (now s) (supply s) (bal s) (alw s) (paused s) (allowed s) (blocked s) v (migrating s) (mdata s) (mgr s).
+Definition set_mig s v := mkState (now s) (supply s) (bal s) (alw s) (paused s) (allowed s) (blocked s) (cap s) v (mdata s) (mgr s).
+Definition set_mgr s a v := mkState (now s) (supply s) (bal s) (alw s) (paused s) (allowed s) (blocked s) (cap s) (migrating s) (mdata s) (updB (mgr s) a v).
+Definition set_mdata s v := mkState (now s) (supply s) (bal s) (alw s) (paused s) (allowed s) (blocked s) (cap s) (migrating s) v (mgr s).
 
 (* ------------------------------------------------------------------ *)
 (* calls                                                               *)
@@ -108,7 +110,10 @@ Inductive op :=
 | Upgrade (wasm_ok : bool) (operator : addr)       (* wasm_ok: the hash names an uploaded wasm (host input) *)
 | Migrate (data : Z) (operator : addr)
 | LibEnable | LibComplete | LibEnsure
-| WhenNotPaused | WhenPaused.                      (* empty entry points under #[when_not_paused] / #[when_paused] *)
+| WhenNotPaused | WhenPaused
+| GrantManager (account caller : addr)             (* AccessControl::grant_role(account, "manager", caller) *)
+| RevokeManager (account caller : addr)            (* AccessControl::revoke_role(account, "manager", caller) *)
+| RenounceManager (caller : addr).                 (* AccessControl::renounce_role("manager", caller) *)                      (* empty entry points under #[when_not_paused] / #[when_paused] *)
 
 (* a call = entry point with arguments + the set of addresses whose authorisation is attached *)
 Definition call := (op * list addr)%type.
@@ -240,11 +245,29 @@ Definition bl_burn_from c (s : state) au sp f amt : res state :=
   do _ <- guard (negb (blocked s f));
   base_burn_from c s au sp f amt.
 
-(* `#[only_role(operator, "manager")]`: ensure_role, then operator.require_auth().
-   The role table is fixed (the harness does not drive the AccessControl entry points). *)
-Definition only_manager (c : cfg) (au : list addr) (operator : addr) : res unit :=
-  do _ <- guard (N.eqb operator (manager c));
+(* `#[only_role(operator, "manager")]`: ensure_role (the operator holds the role now), then
+   operator.require_auth(). *)
+Definition only_manager (s : state) (au : list addr) (operator : addr) : res unit :=
+  do _ <- guard (mgr s operator);
   require_auth au operator.
+
+(* packages/access/src/access_control/storage.rs, for the role "manager" (no role-admin is
+   configured, so only the contract admin may grant/revoke; the admin itself is not changed
+   during a trace). *)
+Definition ensure_admin (c : cfg) (caller : addr) : res unit := guard (N.eqb caller (owner c)).
+Definition grant_manager (c : cfg) (s : state) (au : list addr) (account caller : addr) : res state :=
+  do _ <- require_auth au caller;
+  do _ <- ensure_admin c caller;
+  Ok (if mgr s account then s else set_mgr s account true).
+Definition revoke_manager (c : cfg) (s : state) (au : list addr) (account caller : addr) : res state :=
+  do _ <- require_auth au caller;
+  do _ <- ensure_admin c caller;
+  do _ <- guard (mgr s account);                      (* RoleNotHeld *)
+  Ok (set_mgr s account false).
+Definition renounce_manager (s : state) (au : list addr) (caller : addr) : res state :=
+  do _ <- require_auth au caller;
+  do _ <- guard (mgr s caller);
+  Ok (set_mgr s caller false).
 
 (* ------------------------------------------------------------------ *)
 (* capped/storage.rs                                                   *)
@@ -330,8 +353,11 @@ Definition exec_allow_ex (fixed : bool) (c : cfg) (s : state) (au : list addr) (
   | Approve o sp a lu => al_approve c s au o sp a lu
   | Burn f a => if fixed then al_burn s au f a else base_burn s au f a
   | BurnFrom sp f a => if fixed then al_burn_from c s au sp f a else base_burn_from c s au sp f a
-  | AllowUser u operator => do _ <- only_manager c au operator; Ok (allow_user s u)
-  | DisallowUser u operator => do _ <- only_manager c au operator; Ok (disallow_user s u)
+  | AllowUser u operator => do _ <- only_manager s au operator; Ok (allow_user s u)
+  | DisallowUser u operator => do _ <- only_manager s au operator; Ok (disallow_user s u)
+  | GrantManager a caller => grant_manager c s au a caller
+  | RevokeManager a caller => revoke_manager c s au a caller
+  | RenounceManager caller => renounce_manager s au caller
   | _ => Fail
   end.
 
@@ -354,8 +380,11 @@ Definition exec_block_ex (c : cfg) (s : state) (au : list addr) (o : op) : res s
   | Transfer f t a => bl_transfer s au f t a
   | TransferFrom sp f t a => bl_transfer_from c s au sp f t a
   | Approve o sp a lu => bl_approve c s au o sp a lu
-  | BlockUser u operator => do _ <- only_manager c au operator; Ok (block_user s u)
-  | UnblockUser u operator => do _ <- only_manager c au operator; Ok (unblock_user s u)
+  | BlockUser u operator => do _ <- only_manager s au operator; Ok (block_user s u)
+  | UnblockUser u operator => do _ <- only_manager s au operator; Ok (unblock_user s u)
+  | GrantManager a caller => grant_manager c s au a caller
+  | RevokeManager a caller => revoke_manager c s au a caller
+  | RenounceManager caller => renounce_manager s au caller
   | _ => Fail
   end.
 
@@ -454,7 +483,8 @@ Definition step_prefix := step_gen false.
 (* ------------------------------------------------------------------ *)
 (* deployment                                                          *)
 Definition empty_state (c : cfg) : state :=
-  mkState (now0 c) 0 (fun _ => 0) (fun _ _ => (0, 0)) false (fun _ => false) (fun _ => false) None false None.
+  mkState (now0 c) 0 (fun _ => 0) (fun _ _ => (0, 0)) false (fun _ => false) (fun _ => false) None false None
+          (fun a => N.eqb a (manager c)).     (* constructor: grant_role_no_auth(manager, "manager") *)
 
 (* constructors.  The harness only deploys with arguments for which the constructor succeeds
    (0 <= initial_supply <= i128::MAX, 0 <= cap): [wf_cfg] in Run/C16.v. *)
@@ -487,7 +517,8 @@ Record obs := mkObs {
   o_cap : option Z;             (* query_cap(), None = CapNotSet *)
   o_mig : bool;                 (* can_complete_migration() *)
   o_data : option Z;            (* value stored by _migrate *)
-  o_trap : bool                 (* some getter trapped while observing (never, in the model) *)
+  o_trap : bool;                (* some getter trapped while observing (never, in the model) *)
+  o_mgr : list bool             (* has_role(a, "manager") is Some (allow/block-list examples) *)
 }.
 
 Definition universe (c : cfg) : list addr := map N.of_nat (seq 0 (na c)).
@@ -499,4 +530,4 @@ Definition observe (c : cfg) (s : state) : obs :=
   let u := universe c in
   mkObs (supply s) (map (bal s) u)
         (map (fun o => map (fun sp => allowance s o sp) u) u)
-        (paused s) (map (fun x => Some (listed c s x)) u) (cap s) (migrating s) (mdata s) false.
+        (paused s) (map (fun x => Some (listed c s x)) u) (cap s) (migrating s) (mdata s) false (map (mgr s) u).
